@@ -113,6 +113,15 @@ def some_mixture(rng, p_builtin=0.5, idx=None):
     return synthetic_mixture(rng, rng.choice(["SYN", "SYN", "SYN_A", "SYN%d" % rng.randrange(10 ** 6)]))
 
 
+def tstr(rng, s):
+    """an option string as callers have it: half of the time a string object created at run time (equal to, but not the same
+    object as, the literal in the library's source - e.g. read from a file), so that identity tests on strings show"""
+    if rng.random() < 0.5:
+        return s
+    t = "".join(list(s))
+    return t
+
+
 GRID_T = [283.15, 298.15, 313.15, 323.15, 333.15, 353.15, 373.15]
 
 
